@@ -896,4 +896,19 @@ def _single_definitions(func_node: ast.AST) -> dict:
                             defs.setdefault(x.id, []).append(None)
         elif isinstance(n, ast.NamedExpr):
             defs.setdefault(n.target.id, []).append(None)
+    # a local that is changed in place after its definition (`x.sort()`, `x.update(...)`, `list.sort(x)`: a method call whose result is
+    # discarded, or one of the mutators whose result may be used) does not stand for its definition
+    for n in walk_no_nested(func_node):
+        c = n.value if isinstance(n, ast.Expr) else n
+        if not isinstance(c, ast.Call) or not isinstance(c.func, ast.Attribute):
+            continue
+        recv = c.func.value
+        if isinstance(recv, ast.Name) and (isinstance(n, ast.Expr) or c.func.attr in _MUTATORS):
+            if recv.id in ('list', 'dict', 'set') and c.args and isinstance(c.args[0], ast.Name):
+                defs.setdefault(c.args[0].id, []).append(None)
+            else:
+                defs.setdefault(recv.id, []).append(None)
     return {k: v[0].value for k, v in defs.items() if len(v) == 1 and v[0] is not None and k not in params}
+
+
+_MUTATORS = {'sort', 'reverse', 'append', 'extend', 'insert', 'remove', 'pop', 'popitem', 'clear', 'update', 'setdefault', 'add', 'discard', 'fill', 'resize'}
